@@ -220,6 +220,18 @@ def probe_recipe(kind, p, t, elem, rng, fam, tier='quick'):
              {'op': 'probes', 'pts': [g(14), g(12)], 'buf': 'B', 'how': 'iadd'},
              {'op': 'point_source', 'pts': [g(13)], 'buf': 'C'},
              {'op': 'point_source', 'pts': [g(15)], 'buf': 'C', 'how': 'assign'},
+             # ---- COMPLEX (and integer) coefficient vectors: real and imaginary parts are validated separately
+             {'op': 'interpolator', 'pts': [a, b, c], 'coef': 'complex'},
+             {'op': 'interpolator', 'pts': [g(5)], 'coef': 'complex'},
+             {'op': 'probes', 'pts': [c, a], 'coef': 'complex'},
+             {'op': 'probes_qp', 'pts': [], 'coef': 'complex'},
+             {'op': 'point_source', 'pts': [b], 'coef': 'complex'},
+             {'op': 'interpolator', 'pts': [b, c], 'coef': 'int'},
+             {'op': 'interpolator_nd', 'pts': [g(j) for j in range(4)], 'coef': 'complex'},
+             # ---- quadrature points queried ONE AT A TIME (reference point known exactly)
+             {'op': 'probes_qp1', 'j': int(rng.integers(0, 1000))},
+             {'op': 'interpolator_qp1', 'j': int(rng.integers(0, 1000))},
+             {'op': 'point_source_qp1', 'j': int(rng.integers(0, 1000))},
              {'op': 'probes', 'pts': [a, oth[-1]]},                  # one point far outside: must raise
              {'op': 'point_source', 'pts': [a]},                     # scalar elements only (skipped otherwise)
              {'op': 'point_source', 'pts': [g(11)]},
@@ -227,6 +239,101 @@ def probe_recipe(kind, p, t, elem, rng, fam, tier='quick'):
     if elem in SLOW:
         calls = [calls[0], calls[2], calls[3], calls[9], calls[12]] + ([calls[5], calls[7]] if tier == 'thorough' else [])
     return {'driver': 'probe', 'kind': kind, 'family': fam, 'S': PSCALE, 'elem': elem,
+            'p': np.asarray(p).astype(int).tolist(), 't': np.asarray(t).astype(int).tolist(),
+            'yseed': int(rng.integers(0, 2 ** 31 - 1)), 'calls': calls}
+
+
+# ---- query points EXACTLY on the boundary of the domain, on meshes with generic (non power-of-two) cell
+# determinants: affine images of lattice meshes under an integer matrix with odd determinant, all boundary facets,
+# every local vertex order.  The points belong to the closed domain and must be found.
+GENERIC_A = {2: [[3, 1], [2, 5]], 3: [[3, 1, 1], [1, 5, 2], [0, 1, 7]]}       # det 13 / 93
+BFACE_W = {2: [(2, 2), (3, 1), (1, 3)], 3: [(2, 1, 1), (1, 2, 1), (1, 1, 2), (2, 2, 0), (0, 2, 2), (2, 0, 2)],
+           4: [(1, 1, 1, 1), (2, 1, 0, 1), (0, 1, 2, 1), (2, 2, 0, 0), (0, 2, 2, 0), (0, 0, 2, 2), (2, 0, 0, 2)]}
+
+
+def boundary_recipes(kind, rng, nvar):
+    if kind == 'tri':
+        p, t = G.tensor_tri([0, 1, 2], [0, 1, 2], (0, 1, 1, 0))
+    elif kind == 'quad':
+        p, t = G.tensor_quad([0, 1, 2], [0, 1, 2])
+    elif kind == 'tet':
+        p, t = U.tet_cubes(2, 6)
+    elif kind == 'hex':
+        p, t = G.tensor_hex([0, 1, 2], [0, 1], [0, 1])
+    else:
+        p, t = G.tensor_wedge([0, 1, 2], [0, 1], [0, 1], (0, 1))
+    A = np.array(GENERIC_A[p.shape[0]], dtype=float)
+    p = A @ p
+    out = []
+    for var in range(nvar):
+        t2 = t.copy()
+        if var > 0:
+            if kind == 'tet':
+                t2 = t[[(j + var) % 4 for j in range(4)]]          # every vertex becomes local vertex 0 in turn
+            elif kind == 'tri':
+                t2 = t[[(j + var) % 3 for j in range(3)]]
+            else:
+                t2 = U.apply_local_orders(kind, t, rng)
+        m = U.make(kind, p, t2)
+        P = np.rint(p * SCALE).astype(int)
+        F = np.asarray(m.facets)[:, m.boundary_facets()]
+        pts = []
+        for f in range(F.shape[1]):
+            vs = list(dict.fromkeys(int(v) for v in F[:, f]))               # prism triangles repeat a vertex
+            for w in BFACE_W[len(vs)]:
+                pts.append([int(x) for x in (P[:, vs] @ np.array(w)) // 4])
+        pts += [[int(x) for x in P[:, v]] for v in m.boundary_nodes()]
+        seen, uniq = set(), []
+        for q in pts:
+            if tuple(q) not in seen:
+                seen.add(tuple(q))
+                uniq.append(q)
+        order = rng.permutation(len(uniq))
+        uniq = [uniq[j] for j in order]
+        calls = [uniq[j:j + 6] for j in range(0, len(uniq), 6)]
+        out.append({'driver': 'find', 'kind': kind, 'family': kind + '-generic-boundary', 'S': SCALE,
+                    'p': p.astype(int).tolist(), 't': t2.astype(int).tolist(), 'calls': calls, 'model': 0})
+    return out
+
+
+# ---- NON-AFFINE cells of very small (and large) physical size: geometry = 2^g x integer coordinates; the quadrature
+# points are images of known dyadic reference points, so the reference expansion does not involve the inverse map
+SCALED_ELEMS = {'quad': ['ElementQuad1', 'ElementQuad2', 'ElementQuadS2', 'ElementQuadP3', 'ElementQuad0', 'ElementQuad1DG',
+                         'ElementVector(Quad2)'],
+                'hex': ['ElementHex1', 'ElementHex2', 'ElementHexS2', 'ElementVector(Hex1)'],
+                'tri': ['ElementTriP2'], 'tet': ['ElementTetP2']}
+
+
+def scaled_recipe(kind, elem, g, rng):
+    if kind == 'quad':
+        p, t = G.tensor_quad([0, 4, 8], [0, 4, 8])
+        p = p.copy()
+        p[:, 4] += (1, -1)                                                   # general convex quadrilaterals
+        X8, S = [[4, 2, 6], [4, 2, 4]], 64
+    elif kind == 'hex':                                                      # two frusta: planar faces, non-affine maps
+        P = [[0, 0, 0], [8, 0, 0], [8, 8, 0], [0, 8, 0], [2, 2, 4], [6, 2, 4], [6, 6, 4], [2, 6, 4],
+             [0, 0, 8], [8, 0, 8], [8, 8, 8], [0, 8, 8]]
+        lo = {(1, 1, 1): 6, (1, 1, 0): 2, (1, 0, 1): 5, (0, 1, 1): 7, (1, 0, 0): 1, (0, 1, 0): 3, (0, 0, 1): 4, (0, 0, 0): 0}
+        c1 = [lo[tuple(r)] for r in U.REF_HEX]
+        up = {0: 4, 1: 5, 2: 6, 3: 7, 4: 8, 5: 9, 6: 10, 7: 11}
+        p, t = np.array(P, dtype=float).T, np.array([c1, [up[v] for v in c1]]).T
+        X8, S = [[4, 2], [4, 4], [4, 6]], 64
+    elif kind == 'tri':
+        p, t = G.tensor_tri([0, 1, 3], [0, 2, 3], (0, 1, 1, 0))
+        X8, S = DYADIC_X['tri'], 8
+    else:
+        p, t = U.tet_cubes(1, 6)
+        X8, S = DYADIC_X['tet'], 8
+    nv = p.shape[1]
+    verts = [[int(x) * S for x in p[:, v]] for v in rng.permutation(nv)[:3]]
+    calls = [{'op': 'probes_qp', 'pts': []},
+             {'op': 'probes_qp1', 'j': int(rng.integers(0, 1000))}, {'op': 'probes_qp1', 'j': int(rng.integers(0, 1000))},
+             {'op': 'interpolator_qp1', 'j': int(rng.integers(0, 1000))}, {'op': 'interpolator_qp1', 'j': int(rng.integers(0, 1000))},
+             {'op': 'point_source_qp1', 'j': int(rng.integers(0, 1000))}, {'op': 'point_source_qp1', 'j': int(rng.integers(0, 1000))},
+             {'op': 'interpolator_qp', 'pts': []},
+             {'op': 'probes', 'pts': verts}, {'op': 'interpolator', 'pts': verts[:1]}]
+    return {'driver': 'probe', 'kind': kind, 'family': kind + '-scaled-nonaffine' if kind in ('quad', 'hex') else kind + '-scaled',
+            'S': S, 'elem': elem, 'gscale': int(g), 'X8': X8,
             'p': np.asarray(p).astype(int).tolist(), 't': np.asarray(t).astype(int).tolist(),
             'yseed': int(rng.integers(0, 2 ** 31 - 1)), 'calls': calls}
 
@@ -403,13 +510,15 @@ def exec_probe(rec):
     kind = rec['kind']
     name = rec['elem']
     meta = EL.CATALOGUE[name]
+    g = int(rec.get('gscale', 0))                    # geometry = 2^g x integer coordinates (exact in floating point)
+    G2 = 2. ** g
     events = []
     ev = mesh_event(kind, rec['p'], rec['t'], S)
     events.append(ev)
 
     def build():
-        m = U.make(kind, rec['p'], rec['t'])
-        X = np.array(DYADIC_X[kind], dtype=float) / 8.
+        m = U.make(kind, np.array(rec['p'], dtype=float) * G2, rec['t'])
+        X = np.array(rec.get('X8', DYADIC_X[kind]), dtype=float) / 8.
         W = np.full(X.shape[1], 1. / X.shape[1])
         b = skfem.Basis(m, EL.make(name), quadrature=(X, W))
         return m, b
@@ -418,39 +527,61 @@ def exec_probe(rec):
         events.append({'a': 'Basis', 'err': err, 'elem': name})
         return events
     m, b = mb
-    y = np.random.default_rng(rec['yseed']).integers(-4, 5, b.N)
+    yrng = np.random.default_rng(rec['yseed'])
+    y = yrng.integers(-4, 5, b.N)
+    y2 = yrng.integers(-4, 5, b.N)                   # imaginary parts of the complex coefficient vector
     yf = y.astype(float)
+    yc = y.astype(float) + 1j * y2.astype(float)
     edofs = ids(b.element_dofs)
     bev = {'a': 'Basis', 'err': '', 'elem': name, 'family': meta['family'], 'tolclass': meta['tol'],
-           'ndofs': int(b.N), 'edofs': edofs, 'y': [int(v) for v in y], 'ncomp': 0, 'vdof': []}
+           'ndofs': int(b.N), 'edofs': edofs, 'y': [int(v) for v in y], 'y2': [int(v) for v in y2], 'ncomp': 0, 'vdof': []}
     if meta['family'] == 'P1':
         bev['vdof'] = [int(d) + 1 for d in b.nodal_dofs[0]]
     events.append(bev)
     nbfun = b.element_dofs.shape[0]
-    interp = b.interpolator(yf)
+    handles = {}
+
+    def handle(coef):                                # one interpolator handle per kind of coefficient vector
+        if coef not in handles:
+            handles[coef] = b.interpolator({'real': yf, 'complex': yc, 'int': y.astype(np.int64)}[coef])
+        return handles[coef]
+    handle('real')
     # reference element for the local expansion: a FRESH instance per call, so that per-instance tables of the
     # element under test cannot leak into the reference (ElementGlobal: one instance per scenario, its only
     # table is the per-mesh Vandermonde inverse, expensive to rebuild)
     shared_ref = [EL.make(name)] if meta['tol'] == 'global' else None
     bufs = {}                       # persistent argument arrays of the in-place call histories
+    nq = b.X.shape[1]
 
     for call in rec['calls']:
-        op = call['op']
+        op0 = call['op']
+        coef = call.get('coef', 'real')
+        ycoef = {'real': yf, 'complex': yc, 'int': y.astype(np.int64)}[coef]
         ref = []
-        if op == 'probes_qp':
+        qsel = None                 # flat indices (cell * nq + q) of quadrature points: reference point known exactly
+        op = op0
+        if op0.endswith('_qp') or op0.endswith('_qp1'):
             gx = b.global_coordinates().value                               # dim x nel x nq
-            X = gx.reshape(gx.shape[0], -1)
-            pts = _ints(X * S, 'quadrature points').T.tolist()
+            Xall = gx.reshape(gx.shape[0], -1)
+            if op0.endswith('_qp1'):
+                qsel = np.array([int(call['j']) % Xall.shape[1]])
+                op = op0[:-4]
+            else:
+                qsel = np.arange(Xall.shape[1])
+                op = op0[:-3]
+            X = np.ascontiguousarray(Xall[:, qsel])
+            pts = _ints(X / G2 * S, 'quadrature points').T.tolist()
 
             def refvals():
-                u = b.interpolate(yf)
+                u = b.interpolate(ycoef)
                 u = u[0] if isinstance(u, tuple) else u
-                return np.asarray(u.value)
+                v = np.asarray(u.value)
+                return v.reshape(-1, Xall.shape[1])[:, qsel]
             rv, rerr = guarded(refvals, 30)
-            ref = None if rerr else _fxl(rv, 'interpolate')
+            ref = None if rerr else rv
         else:
             pts = call['pts']
-            X = np.array(pts, dtype=float).T / S
+            X = np.array(pts, dtype=float).T / S * G2
             if 'buf' in call:       # hand the SAME array object to the library again, contents modified in place
                 old = bufs.get(call['buf'])
                 if old is not None and old.shape == X.shape:
@@ -468,9 +599,10 @@ def exec_probe(rec):
                 else:
                     bufs[call['buf']] = X
         N = X.shape[1]
-        e = {'a': 'Probe', 'op': op if op != 'probes_qp' else 'probes', 'pts': [list(map(int, q)) for q in pts],
-             'cells': [], 'rows': [], 'vals': [], 'phis': [], 'ref': [], 'ferr': '', 'err': '', 'pscols': [], 'psvals': []}
-        if op == 'probes_qp':
+        e = {'a': 'Probe', 'op': op, 'pts': [list(map(int, q)) for q in pts],
+             'cells': [], 'rows': [], 'vals': [], 'phis': [], 'ref': [], 'ferr': '', 'err': '', 'pscols': [], 'psvals': [],
+             'coef': coef, 'ypart': 're', 'gscale': g, 'exactref': 1 if qsel is not None else 0}
+        if qsel is not None:
             e['tags'] = {'qp': 1}
         if op == 'interpolator_nd':
             if bev['ncomp'] != 1:
@@ -484,20 +616,20 @@ def exec_probe(rec):
             continue
 
         def observe():
-            if op in ('probes', 'probes_qp'):
+            if op == 'probes':
                 Pm = b.probes(X).tocsr()
                 Pm.sum_duplicates()
-                vals = np.asarray(Pm @ yf).ravel()
+                vals = np.asarray(Pm @ ycoef).ravel()
                 rows = [sorted(int(c) + 1 for c, v in zip(Pm.indices[Pm.indptr[r]:Pm.indptr[r + 1]],
                                                           Pm.data[Pm.indptr[r]:Pm.indptr[r + 1]]) if v != 0)
                         for r in range(Pm.shape[0])]
                 ps = None
             elif op == 'interpolator':
-                vals = np.asarray(interp(X)).ravel()
+                vals = np.asarray(handle(coef)(X)).ravel()
                 rows, ps = None, None
             elif op == 'interpolator_nd':
                 Xn = X.reshape(X.shape[0], 2, -1)
-                out = np.asarray(interp(Xn))
+                out = np.asarray(handle(coef)(Xn))
                 if out.shape != Xn.shape[1:]:
                     raise ValueError('interpolator: trailing axes not preserved')
                 vals = out.ravel()
@@ -515,42 +647,54 @@ def exec_probe(rec):
                 nz = np.nonzero(v)[0]
                 ps = (nz, v[nz])
                 rows = [sorted(int(c) + 1 for c in nz)]
-                vals = np.array([float(sum(Fraction(float(v[j])) * int(y[j]) for j in nz))])
-            # reference expansion on the located cells, through a fresh element and a fresh mapping
+                re = float(sum(Fraction(float(v[j])) * int(y[j]) for j in nz))
+                im = float(sum(Fraction(float(v[j])) * int(y2[j]) for j in nz))
+                vals = np.array([re + 1j * im]) if coef == 'complex' else np.array([re])
+            # reference expansion on the located cells, through a fresh element and a fresh mapping; for quadrature
+            # points the reference coordinates are KNOWN exactly (no inverse map involved)
             el2 = shared_ref[0] if shared_ref else EL.make(name)
             mp2 = m._mapping()
-            Xl = mp2.invF(X[:, :, None], tind=cells)
-            phis = np.array([np.asarray(el2.gbasis(mp2, Xl, i, tind=cells)[0].value) for i in range(nbfun)])
-            return cells, rows, vals, phis, ps
+            if qsel is not None:
+                tcells = qsel // nq
+                Xl = b.X[:, qsel % nq][:, :, None]
+                phis = np.array([np.asarray(el2.gbasis(mp2, Xl, i, tind=tcells)[0].value) for i in range(nbfun)])
+            else:
+                Xl = mp2.invF(X[:, :, None], tind=cells)
+                phis = np.array([np.asarray(el2.gbasis(mp2, Xl, i, tind=cells)[0].value) for i in range(nbfun)])
+            return rows, vals, phis, ps
         obs, err = guarded(observe, 60)
         if err:
             e['err'] = err
             events.append(e)
             continue
-        cells, rows, vals, phis, ps = obs
+        rows, vals, phis, ps = obs
         ncomp = int(phis[0].size // N)
         if bev['ncomp'] == 0:
             bev['ncomp'] = ncomp
         if op == 'point_source' and ncomp != 1:
             continue                                                        # point_source: scalar elements only
         ph = phis.reshape(nbfun, ncomp, N)                                  # component-major as in probes
-        fvals = _fxl(vals, 'vals')
         fph = [[[fx(float(ph[i, c, n])) for i in range(nbfun)] for c in range(ncomp)] for n in range(N)]
-        if fvals is None or ref is None or any(v is None for pn in fph for pc in pn for v in pc):
-            e['err'] = 'NonFinite'
-            events.append(e)
-            continue
-        e['cells'] = [int(k) + 1 for k in cells]
-        e['vals'] = fvals
-        e['phis'] = fph
-        e['ref'] = ref
         if rows is None:                                                    # interpolator: structure not observable
             rows = [[] for _ in range(ncomp * N)]
-        e['rows'] = rows
-        if ps is not None:
-            e['pscols'] = [int(c) + 1 for c in ps[0]]
-            e['psvals'] = [fx(float(v)) for v in ps[1]]
-        events.append(e)
+        parts = [('re', np.real)] + ([('im', np.imag)] if coef == 'complex' else [])
+        if coef != 'complex' and np.iscomplexobj(vals):
+            e['err'] = 'ComplexResultForRealCoefficients'
+            events.append(e)
+            continue
+        for pname, part in parts:
+            ep = dict(e, ypart=pname)
+            fvals = _fxl(part(np.asarray(vals)), 'vals')
+            fref = [] if isinstance(ref, list) else (None if ref is None else _fxl(part(np.asarray(ref)), 'interpolate'))
+            if fvals is None or fref is None or any(v is None for pn in fph for pc in pn for v in pc):
+                ep['err'] = 'NonFinite'
+                events.append(ep)
+                continue
+            ep.update(cells=[int(k) + 1 for k in cells], vals=fvals, phis=fph, ref=fref, rows=rows)
+            if ps is not None:
+                ep['pscols'] = [int(c) + 1 for c in ps[0]]
+                ep['psvals'] = [fx(float(v)) for v in ps[1]]
+            events.append(ep)
     if bev['ncomp'] == 0:
         bev['ncomp'] = 1
     return events
@@ -622,6 +766,14 @@ def run(ctx):
         for kind, nslab in (('tet', 40), ('hex', 60), ('wedge', 60), ('tri', 150), ('quad', 150)) + \
                            ((('tet', 60), ('hex', 40), ('tri', 120)) if th else ()):
             recs.append(big_recipe(kind, nslab, brng, kind + '-boundary-layer', ncalls=10 if th else 6))
+        # points exactly on the domain boundary of meshes with generic cell determinants, every local vertex order
+        for kind, nvar in (('tet', 4), ('hex', 3), ('wedge', 2), ('tri', 3), ('quad', 2)):
+            recs += boundary_recipes(kind, brng, nvar + (2 if th and kind == 'hex' else 0))
+        # non-affine cells (and simplices) at physical scales 2^g
+        for kind, names in SCALED_ELEMS.items():
+            for en, name in enumerate(names):
+                for gg in ((-34, -20, 12, -10) if th else ((-34, 12) if en % 2 == 0 else (-20, -34))):
+                    recs.append(scaled_recipe(kind, name, gg, brng))
         prng = np.random.default_rng(ctx.seed + 1014)
         for name, meta in EL.CATALOGUE.items():
             for variant in range(2 if th else 1):
